@@ -64,6 +64,34 @@ def meta_dict(rng: random.Random) -> dict:
     return d
 
 
+SIZES = [9, 10, 11, 20, 21, 29, 30, 31, 32, 63, 64, 65, 79, 80, 81, 99, 100, 101, 127, 128, 129, 255, 256, 257, 999, 1000, 1024, 4096, 65537]
+
+
+def size_dict(rng: random.Random) -> dict:
+    """a dict built around one size threshold: many keys, a long list, long strings / long keys, many digits, many lists"""
+    n = rng.choice(SIZES)
+    kind = rng.choice(["keys", "list", "string", "key", "digits", "lists", "nestedkeys", "multiword"])
+    if kind == "keys":
+        m = min(n, 1100)
+        return {f"k{i:04d}": rng.choice([i, f"v{i}", "x y", True]) for i in rng.sample(range(m), m)}
+    if kind == "nestedkeys":
+        m = min(n, 300)
+        return {"outer": {"inner": {f"k{i}": i for i in range(m)}}, "after": 1}
+    if kind == "list":
+        m = min(n, 5000)
+        return {"l": [rng.choice([i, 1.5, "w", "two words"]) for i in range(m)], "after": "x"}
+    if kind == "lists":
+        m = min(n, 300)
+        return {"m": [[i, i + 1] for i in range(m)], "after": "x"}
+    if kind == "string":
+        return {"s": "a" * n, "t": ("ab " * n)[: n], "u": "é" * min(n, 1000), "after": 1}
+    if kind == "multiword":
+        return {"s": " ".join(word(rng, 5) for _ in range(min(n, 400))), "after": 1}
+    if kind == "key":
+        return {"k" * min(n, 300): 1, "x" + "y" * (min(n, 300) - 1): {"z" * min(n, 300): "v"}, "after": 1}
+    return {"i": int("9" * min(n, 300)), "j": -int("1" + "0" * min(n, 300)), "f": float("0." + "1" * min(n, 300)), "after": 1}
+
+
 def word(rng: random.Random, maxlen: int = 8, exotic: float = 0.1) -> str:
     """a single bare word that is not number-/bool-/none-like and contains no reserved word"""
     while True:
